@@ -504,7 +504,7 @@ def cost_describe(ev):
 def check_C15(chk):
     q = chk.tier == "quick"
     chk.rule = ("M: MC_Wire's cost counter (one unit per parser step plus the size of whatever a closing collection "
-                "copies) stays <= CostC * tokens on every stream of the bound; R/V: 13 input families (nesting open / "
+                "copies) stays <= CostC * tokens on every stream of the bound; R/V: 24 input families (nesting open / "
                 "closed / with members, repeated 30-deep chains, set width, attributes, same-name attributes, groups, "
                 "members, member values, stray end-collections, value length, name length), sizes doubling from 16 KiB "
                 "to 1 MiB (4 MiB thorough), blocking and async parser, each parse in a child process under a counting "
